@@ -495,6 +495,10 @@ package bt
 //@   loop 0 invariant (= (blen (old (rem r))) (+ bytesRead (blen (rem r))))
 
 // ---- FORKID signature hash (C02) ----
+// a transaction has fewer than 2^31 inputs and outputs (each takes at least 9 bytes of memory and of wire format): the
+// uint32/int32 index conversions of the signature-hash code rely on it
+//@ field-assume bt.Tx.Outputs (< (len value) 2147483648)
+//@ field-assume bt.Tx.Inputs (< (len value) 2147483648)
 //@ func bt.(*Input).PreviousTxID
 //@   pure
 //@   ensures[prevtxid] (= result (. i previousTxID))
@@ -526,6 +530,18 @@ package bt
 //@   bytes token
 //@   pure
 //@   requires (spec.inputs_nonnil tx) (spec.out_scripts_nonnil tx)
-//@   requires (< (len (. tx Outputs)) 2147483648)
 //@   ensures[C02.preimage_errors] (= (= err nil) (and (< inputNumber (len (. tx Inputs))) (> (len (. (at (. tx Inputs) inputNumber) previousTxID)) 0) (not (nil? (. (at (. tx Inputs) inputNumber) PreviousTxScript)))))
+//@   lemma (=> (= err nil) (= (bytes hashPreviousOuts) (old (spec.hash_prevouts tx sigHashFlag))))
+//@   lemma (=> (= err nil) (= (bytes hashSequence) (old (spec.hash_sequence tx sigHashFlag))))
+//@   lemma (=> (= err nil) (= (bytes hashOutputs) (old (spec.hash_outputs tx sigHashFlag inputNumber))))
 //@   ensures[C02.preimage] (=> (= err nil) (= (bytes r0) (old (spec.preimage143 tx inputNumber sigHashFlag))))
+// the signature-hash strategy is a bound method value: which method, on which transaction
+//@ func bt.(*Tx).sigStrat
+//@   ensures[C02.strategy] (and (not (nil? result)) (= (fnrecv result) tx) (= (fnid result) (ite (= (mod (div shf 64) 2) 1) (fn-id "bt.(*Tx).CalcInputPreimage$bound") (fn-id "bt.(*Tx).CalcInputPreimageLegacy$bound"))))
+//@ axiom bt.defaultHex (and (= (len defaultHex) 32) (= (bytes defaultHex) (bcat (b1 1) (bzeros 31))))
+//@ func bt.(*Tx).CalcInputSignatureHash
+//@   bytes token
+//@   opt fn-dispatch bt.(*Tx).CalcInputPreimage$bound bt.(*Tx).CalcInputPreimageLegacy$bound
+//@   requires (spec.inputs_nonnil tx) (spec.out_scripts_nonnil tx) (spec.outputs_nonnil tx)
+//@   ensures[C02.sighash_errors] (=> (= (mod (div sigHashFlag 64) 2) 1) (= (= err nil) (and (< inputNumber (len (. tx Inputs))) (> (len (. (at (. tx Inputs) inputNumber) previousTxID)) 0) (not (nil? (. (at (. tx Inputs) inputNumber) PreviousTxScript))))))
+//@   ensures[C02.sighash] (=> (and (= err nil) (= (mod (div sigHashFlag 64) 2) 1)) (= (bytes r0) (bsha256d (old (spec.preimage143 tx inputNumber sigHashFlag)))))
